@@ -126,14 +126,30 @@ def bounded(tier, seed):
         for d1, d2 in itertools.permutations(dims, 2):
             if run.out_of_time():
                 break
-            for s1 in selectors(lens[d1])[::2 if tier == 'quick' else 1]:
-                for s2 in selectors(lens[d2])[1::3 if tier == 'quick' else 1]:
+            S1, S2 = selectors(lens[d1]), selectors(lens[d2])
+            pairs = []
+            if tier == 'quick':
+                # every (kind, kind) combination with several representatives; list x list with equal lengths
+                ints = lambda S: [x for x in S if not isinstance(x, (slice, list))][:3]
+                sls = lambda S: [x for x in S if isinstance(x, slice)][1::2]
+                n1, n2 = lens[d1], lens[d2]
+                pairs += [(a, b) for a in ints(S1) for b in sls(S2)[:3]]
+                pairs += [(a, b) for a in sls(S1)[:3] for b in ints(S2)[:2]]
+                pairs += [(a, b) for a in ints(S1)[:2] for b in ints(S2)[:2]]
+                pairs += [(a, b) for a in sls(S1)[:2] for b in sls(S2)[1:3]]
+                pairs += [(a, [n2 - 1, 0]) for a in ints(S1)[:2]] + [([0, n1 - 1], b) for b in ints(S2)[:2]]
+                pairs += [(a, [0, 0, n2 - 1]) for a in sls(S1)[:2]] + [([n1 - 1, 0, 0], b) for b in sls(S2)[:2]]
+                pairs += [([n1 - 1, 0], [0, n2 - 1]), ([0, n1 - 1, n1 - 1], [n2 - 1, 0, n2 - 1]), ([0], [n2 - 1])]
+            else:
+                pairs = [(a, b) for a in S1 for b in S2]
+            for s1, s2 in pairs:
                     k1 = 'list' if isinstance(s1, list) else 'slice' if isinstance(s1, slice) else 'int'
                     k2 = 'list' if isinstance(s2, list) else 'slice' if isinstance(s2, slice) else 'int'
                     if k1 == 'list' and k2 == 'list' and len(s1) != len(s2):
                         continue
                     pos = 'earlier' if dims.index(d1) < dims.index(d2) else 'later'
-                    check(f, {d1: s1, d2: s2}, 'two axes: %s on the %s axis, %s on the other' % (k1, pos, k2))
+                    adj = 'adjacent' if abs(dims.index(d1) - dims.index(d2)) == 1 else 'non-adjacent'
+                    check(f, {d1: s1, d2: s2}, 'two %s axes: %s on the %s axis, %s on the other' % (adj, k1, pos, k2))
     # command-line string form
     from PseudoNetCDF.core._functions import slice_dim
     for si, spec in enumerate(specs[:2]):
